@@ -16,7 +16,7 @@ const VARIANTS = {
     empty: "// nothing here\n",
   },
   "a.ts": {
-    ok1: 'import * as B from "./b";\nexport type A = { x: string, b: B.B };',
+    ok1: 'import * as B from "./b";\n/** what A is about */\nexport type A = {\n  /** the x of A */\n  x: string,\n  b: B.B };',
     ok2: 'import * as B from "./b";\nexport type A = { x: number, b: B.B, extra?: boolean };',
     unres: 'import * as B from "./b";\nexport type A = { x: B.Missing };',
     missingfile: 'import { Z } from "./zzz";\nexport type A = { z: Z };',
@@ -24,7 +24,7 @@ const VARIANTS = {
     empty: "/* commented out: export type A = {} */\n",
   },
   "b.ts": {
-    ok1: "export type B = { y: number };\nexport const val = 1 as const;",
+    ok1: "/** B documented */\nexport type B = {\n  /** the y of B */\n  y: number };\nexport const val = 1 as const;",
     ok2: "export type B = string[];\nexport type Missing = 1;\nexport const val = 2 as const;",
     broken: "export type B = {{",
     empty: "",
@@ -162,7 +162,7 @@ export async function run() {
       traces_validated_against_impl: stats.replays,
       samples,
       exhaustive: !!stats.closed,
-      explanation: "project entry.ts -> a.ts (named import) -> b.ts (namespace import), plus zzz.ts which does not exist at first and is imported only by one variant of a.ts (creating it is an update from nothing); a static barrel bar.ts (export * from b.ts) through which one entry variant takes a value; contents per file: two valid variants, a value through the barrel, unresolvable reference, import of the not-yet-existing file, syntactically broken, empty/comment-only (6+6+4+2 update actions + rebuild); BFS over histories, canonical state = (content-variant vector, cache fingerprint = per cached file a hash of the cached module's source text, read through the hook), every state reached by replaying its shortest history in a fresh session; invariant at every rebuild transition: (code | diagnostics, both entry points) equal those of a fresh session serving the current contents. " + (stats.closed ? "closure reached" : `depth bound ${stats.depth} completed (state cap ${STATECAP})`),
+      explanation: "project entry.ts -> a.ts (named import) -> b.ts (namespace import), plus zzz.ts which does not exist at first and is imported only by one variant of a.ts (creating it is an update from nothing); a static barrel bar.ts (export * from b.ts) through which one entry variant takes a value; contents per file: two valid variants (the first ones carry JSDoc on a type and on a property, which the generated code must keep on every rebuild), a value through the barrel, unresolvable reference, import of the not-yet-existing file, syntactically broken, empty/comment-only (6+6+4+2 update actions + rebuild); BFS over histories, canonical state = (content-variant vector, cache fingerprint = per cached file a hash of the cached module's source text, read through the hook), every state reached by replaying its shortest history in a fresh session; invariant at every rebuild transition: (code | diagnostics, both entry points) equal those of a fresh session serving the current contents. " + (stats.closed ? "closure reached" : `depth bound ${stats.depth} completed (state cap ${STATECAP})`),
       depth_completed: stats.depth,
       depth_max_history: stats.maxDepth,
       rebuild_transitions_checked: stats.rebuilds,
